@@ -266,6 +266,21 @@ func (env *Env) ident(name string) (EV, error) {
 				}
 			}
 			found = dom
+			if len(found) > 1 {
+				// prefer the variable the loop itself assigns
+				var assigned []*ssa.Alloc
+				for _, a := range found {
+					for _, r := range *a.Referrers() {
+						if st, ok := r.(*ssa.Store); ok && st.Addr == a && env.loop.Blocks[st.Block()] {
+							assigned = append(assigned, a)
+							break
+						}
+					}
+				}
+				if len(assigned) == 1 {
+					found = assigned
+				}
+			}
 		}
 		if len(found) == 1 {
 			a := found[0]
